@@ -1,8 +1,103 @@
-(** Property C08 -- INTERIM statement file: the unbounded theorems for this property are being
-    proved (Proofs/YearlyProofs.v, BalanceProofs.v, FilterProofs.v); it currently pins the
-    constants the model takes from the source. *)
-From RP2V Require Import Base.Prelude Base.Dec Model.Types Model.Generated.
+(** Property C08 -- histories that overdraw an account are rejected unless -n is given.
+
+    Model: [balances allow to_day exs hos t] / [compute ... allow ...] of Model/Computed.v; [allow] is the
+    -n switch (Configuration.allow_negative_balances).  After every out-transaction and every transfer the
+    code tests the debited account: [quantize(1e-10) of the balance <> 0 and balance < 0 and not allow]
+    ([goes_negative], mask digits read from balance.py by the translator).  Amounts are integers in units of
+    1e-11 coins, so 1e-10 is 10 units; the test is [balance < -5] units (BalanceProofs.goes_negative_iff_gen:
+    half-even rounding to 1e-10 is zero exactly on [-5, 5]).
+    [shown] below is what the replay sees: [take_until txn_day to_day (replay_order t)]; a "moment" is a prefix
+    of it; [balance_after ex ho q] is the running balance of account (ex, ho) after the prefix [q];
+    [overdrawn_at tol p x] says that right after [x] (which follows the prefix [p]) the account debited by [x] is more
+    than [tol] units below zero.  Vocabulary: Model/ComputedSpec.v.  Proofs: Proofs/BalanceProofs.v, Proofs/C08Proofs.v. *)
+From Coq Require Import List ZArith Bool Lia.
+From RP2V Require Import Base.Prelude Base.Time Base.Dec Model.Types Model.Generated Model.Pipeline Model.Computed Model.ComputedSpec
+  Proofs.BalanceProofs Proofs.C08Proofs.
+Import ListNotations.
 Open Scope Z_scope.
-Theorem C08_constants : gen_balance_mask_digits = 10 /\ gen_crypto_decimals = 13.
-Proof. split; reflexivity. Qed.
-Print Assumptions C08_constants.
+
+(** the tolerance test of the code, numerically *)
+Theorem C08_tolerance : forall bal, goes_negative bal = true <-> bal < -5.
+Proof. exact goes_negative_iff_gen. Qed.
+
+(** exact characterisation: without -n the history is rejected iff at some moment a debit leaves the debited
+    account more than 5e-11 below zero (transient overdrafts included: the statement is over prefixes) *)
+Theorem C08_rejected_iff : forall to_day exs hos t, holders_ok t ->
+  (balances false to_day exs hos t = Err ENegBalance <->
+   exists p x r, take_until txn_day to_day (replay_order t) = p ++ x :: r /\ overdrawn_at 5 p x).
+Proof. exact c08_rejected_iff. Qed.
+
+(** this is the only way the balance computation fails, and never with -n *)
+Theorem C08_only_error : forall to_day exs hos t allow e, balances allow to_day exs hos t = Err e -> e = ENegBalance /\ allow = false.
+Proof. exact c08_only_error. Qed.
+
+(** "rejected with an error naming the account": the rejection happens at the first such debit, and the account
+    reported ([first_negative], the account of the error message) is the account debited by it, whose running
+    balance is then below -5e-11 *)
+Theorem C08_first_overdraft_named : forall to_day exs hos t, holders_ok t ->
+  forall e, balances false to_day exs hos t = Err e ->
+  exists p x r ex ho, take_until txn_day to_day (replay_order t) = p ++ x :: r /\
+    debited x = Some (ex, ho) /\ balance_after ex ho (p ++ [x]) < -5 /\
+    (forall p1 y p2, p = p1 ++ y :: p2 -> ~ overdrawn_at 5 p1 y) /\
+    first_negative false {| bs_acq := []; bs_sent := []; bs_recv := []; bs_final := [] |}
+                   (take_until txn_day to_day (replay_order t)) = Some (ex, ho).
+Proof. exact c08_first_overdraft. Qed.
+
+(** "a history in which any account's running balance drops below zero by more than 1e-10 at any moment is rejected":
+    any account, any prefix (credits are non-negative, as the constructors guarantee for everything but negative
+    STAKING income, which the matcher rejects) *)
+Theorem C08_overdraft_rejected : forall to_day exs hos t, holders_ok t ->
+  credits_nonneg (take_until txn_day to_day (replay_order t)) ->
+  (exists q r ex ho, take_until txn_day to_day (replay_order t) = q ++ r /\ balance_after ex ho q < -10) ->
+  balances false to_day exs hos t = Err ENegBalance.
+Proof. exact c08_overdraft_rejected. Qed.
+
+(** "A history in which no account ever goes negative is never rejected for this reason" *)
+Theorem C08_never_negative_accepted : forall to_day exs hos t, holders_ok t ->
+  (forall q r ex ho, take_until txn_day to_day (replay_order t) = q ++ r -> 0 <= balance_after ex ho q) ->
+  exists bl, balances false to_day exs hos t = Ok bl.
+Proof. exact c08_never_negative_accepted. Qed.
+
+(** neither too strict: dust of up to 5e-11 below zero after a debit is tolerated *)
+Theorem C08_within_tolerance_accepted : forall to_day exs hos t, holders_ok t ->
+  (forall p x r, take_until txn_day to_day (replay_order t) = p ++ x :: r -> ~ overdrawn_at 5 p x) ->
+  exists bl, balances false to_day exs hos t = Ok bl.
+Proof. exact c08_never_overdrawn_accepted. Qed.
+
+(** "with -n the run proceeds and reports the negative balance": never rejected, every final balance is the
+    account's net flow (whatever its sign) *)
+Theorem C08_allowed_reports : forall to_day exs hos t, holders_ok t ->
+  exists bl, balances true to_day exs hos t = Ok bl /\
+    forall b, In b bl -> b_final b = balance_after (b_exch b) (b_holder b) (take_until txn_day to_day (replay_order t)).
+Proof. exact c08_allowed_reports. Qed.
+
+(** the switch changes nothing else: on a history that is accepted both settings give the same table, and in the
+    whole computation ([compute]) the guard is the only place where the switch matters -- "no report is produced":
+    the run without -n returns the error instead of a result *)
+Theorem C08_switch_irrelevant_when_accepted : forall to_day exs hos t bl,
+  balances false to_day exs hos t = Ok bl -> balances true to_day exs hos t = Ok bl.
+Proof. exact c08_switch_irrelevant_when_accepted. Qed.
+
+Theorem C08_compute_switch : forall period from_day to_day exs hos t fs cd,
+  compute period from_day to_day true exs hos t fs = Ok cd ->
+  (forall bl, balances false to_day exs hos t = Ok bl -> compute period from_day to_day false exs hos t fs = Ok cd) /\
+  (forall e, balances false to_day exs hos t = Err e -> compute period from_day to_day false exs hos t fs = Err ENegBalance).
+Proof. exact c08_compute_switch. Qed.
+
+(** Non-vacuity (Proofs/C08Proofs.v and Proofs/L4Examples.v, evaluated by the kernel): history B (buy 1, sell 2, buy 5:
+    transient overdraft, final balance +4) meets the hypotheses of C08_overdraft_rejected ([tB_holders_ok],
+    [tB_credits_nonneg], [tB_overdrawn]) and is rejected ([c08_overdraft_instance], [c08_first_instance],
+    [tB_rejected]: account E0/H0 is named), accepted with -n ([tB_final_positive]) and reports -1 coin when the to-date
+    lies before the refill ([tB_negative_reported]); dust: 5e-11 below zero accepted, 6e-11 rejected ([dust_5_accepted],
+    [dust_6_rejected]); history A is accepted under both settings ([c08_accepted_instance]). *)
+
+Print Assumptions C08_tolerance.
+Print Assumptions C08_rejected_iff.
+Print Assumptions C08_only_error.
+Print Assumptions C08_first_overdraft_named.
+Print Assumptions C08_overdraft_rejected.
+Print Assumptions C08_never_negative_accepted.
+Print Assumptions C08_within_tolerance_accepted.
+Print Assumptions C08_allowed_reports.
+Print Assumptions C08_switch_irrelevant_when_accepted.
+Print Assumptions C08_compute_switch.
